@@ -12,7 +12,8 @@ from core import q
 warnings.simplefilter('ignore')
 
 REQUIRED = ['session_balanced', 'session_atoms_good', 'moveTo_closed', 'session_shutter_closed', 'farcallList_balanced',
-            'shipped_headers_ok', 'session_rotation_off', 'exit_rotation_off', 'shipped_headers_rotation_off', 'session_vars_declared', 'shipped_headers_var_free']
+            'shipped_headers_ok', 'session_rotation_off', 'exit_rotation_off', 'shipped_headers_rotation_off', 'session_vars_declared', 'shipped_headers_var_free',
+            'session_calls_loaded', 'shipped_headers_load_free', 'calls_loaded_needs_keys_agree']
 RULE = ('stream session: random operation trees (depth <= 4, <= 40 operations: writes of closed paths incl. builder-made ones, '
         'move_to with None coordinates / bad speeds, homing, nested REPEAT/FOR/axis-rotation blocks incl. rejected counts and '
         'undeclared variables, dwell with zero/negative/None, comments, set_home, dvar, load/farcall/bufferedcall/remove with '
@@ -34,12 +35,17 @@ CLAIM = {
             'move_to is executed with the shutter closed from any state, the shutter is closed at the end when all written paths are '
             'closed, farcall_list leaves the loaded set as it found it (also when it fails at file k), and in program order the G84 state '
             'after the file is off for any nesting of rotation blocks and any crash point (session_rotation_off), and every FOR variable '
-            'has been declared by a hoisted DVAR line earlier in the text (session_vars_declared). The full well-formedness '
+            'has been declared by a hoisted DVAR line earlier in the text (session_vars_declared), and every FARCALL / BUFFEREDRUN / '
+            'REMOVEPROGRAM names a program loaded earlier in the text and not removed since (session_calls_loaded: calls of unloaded '
+            'programs are refused; hypothesis: the file names of the session are told apart by the compiler, case-sensitively, exactly '
+            'when the controller tells them apart, case-insensitively; calls_loaded_needs_keys_agree is the counter-example without it). '
+            'The full well-formedness '
             'predicate (variables, calls, G84, shutter at positioning moves) is additionally decided in Lean on the bytes the real '
             'context manager wrote, for generated histories with crashes, every run.',
     'note': 'Trusted: Lean kernel/Mathlib, Spec/Controller.lean + Spec/WF.lean as the meaning of well-formed, the model of the '
             'compiler in Model/Gcode.lean tied to the code by instruction-level differential comparison; the static checks for '
-            'variables / calls / G84 are proved only in part (see DESIGN) and otherwise decided per generated history.',
+            'variables / calls / G84 are proved in program order (loops not unrolled) and additionally decided per generated history; '
+            '"is unloaded after use" is proved for farcall_list only (a user may load and never remove).',
     'technique': 'Lean 4 proof by mutual structural induction over the operation tree (crash included) + spec-on-implementation',
 }
 
